@@ -22,8 +22,6 @@ Ok == Nil      \* outcome "no exception"
 
 Anc(par, n) == PathSet(par, n) \ {n}           \* proper ancestors
 
-RECURSIVE Flat(_)
-Flat(ss) == IF ss = <<>> THEN <<>> ELSE Head(ss) \o Flat(Tail(ss))
 
 (***************************************************************************)
 (* C02: the effect of a successful call, and when a call must be refused.  *)
